@@ -86,7 +86,16 @@ def simpCk : Nat → SStack → Nat → Expr → Except Err (Expr × Nat)
           match dictLookup ks vs (.str a) with
           | some r => pure (r, c1)
           | Option.none => pure (.attr v' a, c1)
-        | _ => pure (.attr v' a, c1)
+        | _ =>
+          match firstArg? v' with
+          | some (some first) =>
+            let x := argName c1
+            let select := makeSelect first (.lam [x] (.attr (.name x) a))
+            if keyFree st (fcall "First" [select]) then
+              simpCk fuel st (c1 + 1) (fcall "First" [select])
+            else .error (sideErr "attribute pushed under First")
+          | some Option.none => .error (.internal "IndexError")
+          | Option.none => pure (.attr v' a, c1)
     | .sub v s => do
       let (v', c1) ← simpCk fuel st c v
       let (s', c2) ← simpCk fuel st c1 s
@@ -137,15 +146,15 @@ def simpCk : Nat → SStack → Nat → Expr → Except Err (Expr × Nat)
     | .op k args => do let (as', c1) ← simpLCk fuel st c args; pure (.op k as', c1)
     | .comp .. => .error (sideErr "comprehension (lowered by the sugar pass before the simplifier runs)")
     | .call f args kwn kwv =>
-      let generic (headOK : Bool) : Except Err (Expr × Nat) := do
-        let (f', c1) ← simpCk fuel st c f
+      let generic (head : Except Err (Expr × Nat)) (headOK : Bool) : Except Err (Expr × Nat) := do
+        let (f', c1) ← head
         let (as', c2) ← simpLCk fuel st c1 args
         let (ks', c3) ← simpLCk fuel st c2 kwv
         if headOK then pure (.call f' as' kwn ks', c3) else .error (sideErr "a substituted name in callee position")
       match f with
       | .lam ps body =>
         let npos := args.length
-        if !distinctS ps || npos > ps.length || !distinctS kwn || !sameSet kwn (ps.drop npos) then generic true
+        if !distinctS ps || npos > ps.length || !distinctS kwn || !sameSet kwn (ps.drop npos) then generic (simpCk fuel st c f) true
         else do
           let (ps', body', c1) ← makeArgsUniqueCk ps body c st
           let (as', c2) ← simpLCk fuel st c1 args
@@ -166,13 +175,23 @@ def simpCk : Nat → SStack → Nat → Expr → Except Err (Expr × Nat)
             simpCk fuel st (c + 1) (fcall "First" [select])
           else .error (sideErr "method call pushed under First")
         | some Option.none => .error (.internal "IndexError")
-        | Option.none => generic (!(opNames.contains m) || builtinOps.contains m)
+        | Option.none =>
+          -- a method head: visited as an attribute (dictionary fields are resolved), never taken out of a First
+          let head : Except Err (Expr × Nat) := do
+            let (v', c1) ← simpCk fuel st c v
+            match v' with
+            | .dict ks vs =>
+              match dictLookup ks vs (.str m) with
+              | some r => pure (r, c1)
+              | Option.none => pure (.attr v' m, c1)
+            | _ => pure (.attr v' m, c1)
+          generic head (!(opNames.contains m) || builtinOps.contains m)
       | .name n =>
         if n = "Select" then callSelectCk fuel st c args kwn kwv
         else if n = "SelectMany" then callSelectManyCk fuel st c args kwn kwv
         else if n = "Where" then callWhereCk fuel st c args kwn kwv
-        else generic (!(stackKeys st).contains n)
-      | _ => generic true
+        else generic (simpCk fuel st c f) (!(stackKeys st).contains n)
+      | _ => generic (simpCk fuel st c f) true
 def simpLCk : Nat → SStack → Nat → List Expr → Except Err (List Expr × Nat)
   | 0, _, _, _ => .error .fuel
   | _ + 1, _, c, [] => .ok ([], c)
